@@ -191,3 +191,6 @@ def table_after_history(fl: int, f0: int, f1: int, f2: int) -> str:
     post: _ == ''
     """
     return verdict(untraced(_hygiene, fl, f0, f1, f2, 0))
+
+
+from vf.validate.stubs import ALL as VALIDATE  # noqa: E402  (stub-vs-real conformance, run before the obligations)
